@@ -63,7 +63,7 @@ pub fn gen_case(seed: u64, stream: &str, case: u64, size: SizeClass, single_inst
     };
     let tp = TickParams {
         n_candidates: n_cand,
-        prog: ProgParams { pool, allow_delete_node: true, allow_portal: true, allow_reparent, max_writes: 2, ports: true },
+        prog: ProgParams { pool, allow_delete_node: true, allow_portal: true, allow_reparent, max_writes: 2, ports: true, allow_recreate: rng.chance(1, 2) },
         use_sys_slot: true,
     };
     let programs = gen::gen_candidates(&mut rng, &graph, &tp);
@@ -73,6 +73,13 @@ pub fn gen_case(seed: u64, stream: &str, case: u64, size: SizeClass, single_inst
         return Err(format!("generated state does not round-trip through the real store: {} / {:?}", back.first_diff(&graph.state), issues.0));
     }
     Ok(Case { graph, programs, pre, class })
+}
+
+/// `delta_validate` builds assert "emitted ops == minimal state diff"; a rewrite that deletes and
+/// recreates an edge emits more than that by construction, so those cases are not run there.
+pub fn skip_in_dv_lane(args: &Args, programs: &[Program]) -> bool {
+    args.extra.get("lane").is_some_and(|l| l == "dv")
+        && programs.iter().any(|p| p.ops.iter().any(|o| matches!(o, prog::Mop::RecreateEdge { .. })))
 }
 
 pub fn case_json(seed: u64, stream: &str, case: u64, c: &Case) -> Value {
@@ -156,6 +163,10 @@ fn one_case(rep: &mut Report, args: &Args, stream: &str, case: u64, size: SizeCl
         }
     };
     let replay = json!({"seed": args.seed, "stream": stream, "case": case, "size": format!("{size:?}")});
+    if skip_in_dv_lane(args, &c.programs) {
+        rep.count("cases_skipped_in_dv_lane(recreate-edge)", 1);
+        return;
+    }
     rep.eval();
     let Some((canon, plan)) = canonical_and_model(rep, "C01", &c, &replay) else {
         prog::uninstall(&c.programs);
@@ -171,8 +182,15 @@ fn one_case(rep: &mut Report, args: &Args, stream: &str, case: u64, size: SizeCl
         }
         use std::io::Write;
         if let Ok(mut f) = std::fs::OpenOptions::new().create(true).append(true).open(path) {
-            let _ = writeln!(f, "{stream} {case} {}", h.finalize().to_hex());
+            // one write(2) per line: `writeln!` on an unbuffered File issues one write per
+            // format fragment, and shards append to this file concurrently
+            let line = format!("{stream} {case} {}\n", h.finalize().to_hex());
+            let _ = f.write_all(line.as_bytes());
         }
+    }
+    if let Some(path) = args.extra.get("dump-tuple") {
+        // debugging aid for cross-lane mismatches: the full canonical outcome tuple of this case
+        let _ = std::fs::write(path, want.iter().map(|(k, v)| format!("{k}\t{v}\n")).collect::<String>());
     }
     let n_acc = plan.accepted.iter().filter(|a| **a).count();
     let n_rej = plan.accepted.len() - n_acc;
@@ -265,7 +283,7 @@ fn seq_case(rep: &mut Report, args: &Args, case: u64) {
             let g = GenGraph { state: st.clone(), root: c.graph.root, descent: descent.clone() };
             let tp = TickParams {
                 n_candidates: rng.range_usize(2, 12),
-                prog: ProgParams { pool: rng.range_usize(2, 6), ..ProgParams::default() },
+                prog: ProgParams { pool: rng.range_usize(2, 6), allow_recreate: case % 2 == 0, ..ProgParams::default() },
                 use_sys_slot: true,
             };
             gen::gen_candidates(&mut rng, &g, &tp)
@@ -282,6 +300,10 @@ fn seq_case(rep: &mut Report, args: &Args, case: u64) {
         }
     }
     if ticks.len() < 2 {
+        return;
+    }
+    if ticks.iter().any(|t| skip_in_dv_lane(args, t)) {
+        rep.count("cases_skipped_in_dv_lane(recreate-edge)", 1);
         return;
     }
     rep.eval();
@@ -416,6 +438,10 @@ fn exhaustive_small(rep: &mut Report, args: &Args, case: u64) {
     };
     c.programs.truncate(6);
     if c.programs.len() < 3 {
+        return;
+    }
+    if skip_in_dv_lane(args, &c.programs) {
+        rep.count("cases_skipped_in_dv_lane(recreate-edge)", 1);
         return;
     }
     let replay = json!({"seed": args.seed, "stream": "C01/exh", "case": case, "size": "Small", "truncate": 6});
